@@ -1,0 +1,10 @@
+//go:build verif
+
+package server
+
+import "time"
+
+// VerifNoShareDelay disables the anti-timing delay on refused share requests.
+func VerifNoShareDelay() {
+	timeSleep = func(time.Duration) {}
+}
